@@ -270,4 +270,32 @@ theorem wrun_eq_exec (r : WRow) (seq : List Ins) (hssa : r.ssa = some seq) (para
   · cases hssa
 
 
+theorem canon_lt (t : Ty) (v : Int) : canon t v < 2 ^ t.cls.bits := pat_lt t.cls v
+
+/-- a wasm row of a proved shape computes its specification on canonical operands -/
+theorem wrow_correct (r : WRow) (hok : wrowOk r = true) (hs : r.src ∈ legalTys) (hd : r.dst ∈ legalTys)
+    (hsame : r.kind ≠ .cast → r.dst = r.src) (args : List Int) (hlen : args.length = r.nparams)
+    (hin : ∀ a ∈ args, r.src.inRange a) (v : Nat) (hv : r.spec args = some v) :
+    wrun r.code (args.map (canon r.src)) r.nlocals = some v := by
+  unfold wrowOk at hok
+  cases htr : r.toRow with
+  | none => simp [htr] at hok
+  | some q =>
+    simp only [htr, Bool.and_eq_true, beq_iff_eq, decide_eq_true_eq] at hok
+    obtain ⟨⟨hq, hnp⟩, _⟩ := hok
+    unfold WRow.toRow at htr
+    cases hssa : r.ssa with
+    | none => simp [hssa] at htr
+    | some seq =>
+      simp [hssa] at htr
+      subst htr
+      have h12 : r.nparams = 1 ∨ r.nparams = 2 := by rw [hnp]; split <;> simp
+      rw [wrun_eq_exec r seq hssa (args.map (canon r.src)) (by simp [hlen]) h12]
+      · exact row_correct ⟨r.kind, r.op, r.src, r.dst, seq⟩ hq hs hd hsame args hin v hv
+      · intro p hp
+        cases args with
+        | nil => simp at hp
+        | cons a _ => simp at hp; subst hp; exact canon_lt r.src a
+
+
 end FerretVerif.WasmSem
